@@ -486,6 +486,11 @@ func (g *Gen) HistoryAlgebra() []E {
 			o1, o2 := g.operand(f), g.operand(f)
 			find([]interface{}{"un", "in", B(f), []interface{}{"list", []interface{}{o1, o2}}})
 			find([]interface{}{"or", []interface{}{"un", "eq", B(f), o1}, []interface{}{"un", "eq", B(f), o2}})
+			// Neq and Not(Eq), NotExists and Not(Exists)
+			find([]interface{}{"sugar", "neq", B(f), o1})
+			find(not([]interface{}{"un", "eq", B(f), o1}))
+			find([]interface{}{"sugar", "notexists", B(f), []interface{}{"none"}})
+			find(not([]interface{}{"un", "exists", B(f), []interface{}{"none"}}))
 		case 5: // reference operands, also to absent fields
 			f := g.leafField()
 			other := g.pick([]string{"x", "xy", "k", "missing", "n.a", "s"})
